@@ -592,7 +592,10 @@ class Interp(object):
         if isinstance(v, ast.Constant):
             return          # docstring
         if isinstance(v, ast.Call) and isinstance(v.func, ast.Name) and v.func.id == 'print':
-            return          # dropped: print()
+            h = self.hooks.get('print')
+            if h is not None:       # the printed text IS the subject (code emitters): evaluate and hand over
+                h(self, [self.eval(a, fr) for a in v.args], fr)
+            return          # otherwise dropped: print()
         if isinstance(v, ast.Call) and isinstance(v.func, ast.Attribute) and \
                 v.func.attr == 'warn':
             return
@@ -1126,6 +1129,13 @@ class Interp(object):
             return self.obj_binop(op, a, b)
         if not isinstance(a, Sym) and not isinstance(b, Sym):
             if op == 'Mod' and isinstance(a, str):
+                # concrete operands: the real text (code emitters); anything symbolic: an opaque message
+                items = b if isinstance(b, tuple) else (b,)
+                if all(isinstance(x, (str, int)) and not isinstance(x, bool) for x in items):
+                    try:
+                        return a % b
+                    except (TypeError, ValueError):
+                        pass
                 return '<fmt>'
             if op in ('LShift', 'RShift') and isinstance(b, int) and b < 0:
                 raise RaiseSig('ValueError')
